@@ -128,91 +128,129 @@ def run(ctx):
     g = CFG(f.node, name=f.qualname)
     cur_stores = [n for n in g.stmt_nodes() if n.kind == "stmt" and isinstance(n.ast, ast.Assign)
                   and any(isinstance(t, ast.Subscript) and self_attr(t.value) == "_prev_waiting_trial_number" for t in n.ast.targets)]
-    ctx.floor("R04.3", "cursor_stores", len(cur_stores), 2)
+    ctx.floor("R04.3", "cursor_stores", len(cur_stores), 1)
+    defs = single_defs(f.node)
+    TRIALS = "self._studies[study_id].trials"
+    CURSOR = "self._prev_waiting_trial_number[study_id]"
+
+    def is_scan_source(e):
+        """<study trials>[cursor:]"""
+        e = resolve(e, defs)
+        return (isinstance(e, ast.Subscript) and isinstance(e.slice, ast.Slice) and e.slice.lower is not None and e.slice.upper is None
+                and norm(e.slice.lower) == CURSOR and norm(e.value) == TRIALS)
+
+    def waiting_filter(e, var):
+        a = cmp_atom(e)
+        return bool(a) and a[0] == f"{var}.state" and a[2].endswith("TrialState.WAITING") and a[1] in (ast.Eq, ast.Is)
+
     loops = [n for n in g.stmt_nodes() if n.kind == "iter"]
     scan = None
     for lp in loops:
-        it = lp.ast.iter
-        if isinstance(it, ast.Subscript) and isinstance(it.slice, ast.Slice) and it.slice.lower is not None \
-                and "_prev_waiting_trial_number" in norm(it.slice.lower) and it.slice.upper is None and norm(it.value).endswith(".trials"):
+        if is_scan_source(lp.ast.iter):
             scan = lp
-    ctx.check(scan is not None, "R04.3", f.short, "scan-starts-at-cursor",
-              message="the WAITING scan does not run over trials[cursor:]", how="for trial in <study>.trials[self._prev_waiting_trial_number[study_id]:]")
-    if scan is not None:
-        lv = scan.ast.target.id if isinstance(scan.ast.target, ast.Name) else None
-        body0 = [m for k, m in scan.succ if k == "loop"]
-        in_loop = g.reachable(body0, avoid_nodes=[scan])
-        out_names = set()
-        # the list of found WAITING trials
-        for n in in_loop:
-            for c in n.calls():
-                if isinstance(c.func, ast.Attribute) and c.func.attr == "append" and c.args and norm(c.args[0]) == lv:
-                    out_names.add(norm(c.func.value))
-        found = next(iter(out_names), None)
+    # comprehension form: found = [t for t in <scan source> if t.state == WAITING]
+    comp_lists = {}
+    all_defs = []
+    for x in own_nodes(f.node):
+        if isinstance(x, ast.Assign) and len(x.targets) == 1 and isinstance(x.targets[0], ast.Name):
+            all_defs.append((x.targets[0].id, x.value))
+        elif isinstance(x, ast.AnnAssign) and isinstance(x.target, ast.Name) and x.value is not None:
+            all_defs.append((x.target.id, x.value))
+    for nm, v in all_defs:
+        if isinstance(v, ast.ListComp) and len(v.generators) == 1 and is_scan_source(v.generators[0].iter) and isinstance(v.generators[0].target, ast.Name):
+            tv = v.generators[0].target.id
+            if isinstance(v.elt, ast.Name) and v.elt.id == tv and len(v.generators[0].ifs) == 1 and waiting_filter(v.generators[0].ifs[0], tv):
+                comp_lists[nm] = v
+    ctx.check(scan is not None or bool(comp_lists), "R04.3", f.short, "scan-starts-at-cursor",
+              message="the WAITING scan does not run over <study trials>[cursor:] filtered by state == WAITING", how="loop or comprehension over trials[cursor:]")
+    lv = scan.ast.target.id if scan is not None and isinstance(scan.ast.target, ast.Name) else None
+    body0 = [m for k, m in scan.succ if k == "loop"] if scan is not None else []
+    in_loop = g.reachable(body0, avoid_nodes=[scan]) if scan is not None else set()
+    found = None
+    for n in in_loop:
+        for c in n.calls():
+            if isinstance(c.func, ast.Attribute) and c.func.attr == "append" and c.args and norm(c.args[0]) == lv:
+                found = norm(c.func.value)
+    if found is None and comp_lists:
+        found = next(iter(comp_lists))
 
-        def atom_waiting(e):
-            a = cmp_atom(e)
-            if a and a[0] == f"{lv}.state" and a[2].endswith("TrialState.WAITING"):
-                return True if a[1] in (ast.Eq, ast.Is) else (False if a[1] in (ast.NotEq, ast.IsNot) else None)
-            return None
+    def atom_waiting(e):
+        a = cmp_atom(e)
+        if a and a[0] == f"{lv}.state" and a[2].endswith("TrialState.WAITING"):
+            return True if a[1] in (ast.Eq, ast.Is) else (False if a[1] in (ast.NotEq, ast.IsNot) else None)
+        return None
 
-        def atom_empty(e):
-            if isinstance(e, ast.Name) and e.id == found:
-                return False  # truthy list = non-empty
-            a = cmp_atom(e)
-            if a and a[0] == f"len({found})" and a[2] == "0":
-                return True if a[1] is ast.Eq else (False if a[1] in (ast.Gt, ast.NotEq) else None)
-            return None
-        for st in cur_stores:
-            v = norm(st.ast.value)
-            if st in in_loop:
-                shape_ok = v == f"{lv}.number"
-                if not shape_ok:
-                    val = st.ast.value
-                    if isinstance(val, ast.BinOp) and norm(val.left) == f"{lv}.number" and isinstance(val.right, ast.Constant) \
-                            and isinstance(val.right.value, int):
-                        if isinstance(val.op, ast.Sub) and val.right.value >= 0:
-                            shape_ok = True
-                        elif isinstance(val.op, ast.Add) and val.right.value > 0:
-                            shape_ok = False
-                        else:
-                            ctx.require(False, f"R04.3: unrecognised cursor value `{v}`")
-                    elif not (isinstance(val, ast.BinOp)):
-                        ctx.require(v == f"{lv}.number", f"R04.3: unrecognised cursor value `{v}`")
-                ctx.check(shape_ok, "R04.3", f.short, f"cursor-value:{v}",
-                          message=f"the WAITING cursor is set to `{v}`, beyond the first WAITING trial found: that trial is never listed again",
-                          how="cursor := number of the first WAITING trial", where=where(f, st.ast))
-                acc_w, acc_e = [], []
-                for t in g.stmt_nodes():
-                    if t.kind == "test":
-                        for k, m in t.succ:
-                            pw = edges_where(t.expr, atom_waiting)
-                            pe = edges_where(t.expr, atom_empty)
-                            if pw.get(k) is True:
-                                acc_w.append((t, k, m))
-                            if pe.get(k) is True:
-                                acc_e.append((t, k, m))
-                r1 = g.reachable(body0, avoid_nodes=[scan], avoid_edges=acc_w)
-                r2 = g.reachable(body0, avoid_nodes=[scan], avoid_edges=acc_e)
-                ctx.check(bool(acc_w) and st not in r1, "R04.3", f.short, "cursor-only-at-WAITING-trial",
-                          message="the cursor can be moved to a trial that is not WAITING", how="store dominated (within the iteration) by `trial.state == WAITING`")
-                ctx.check(bool(acc_e) and st not in r2, "R04.3", f.short, "cursor-only-at-first-found",
-                          message="the cursor can be moved to a later WAITING trial although an earlier one was found "
-                                  "(the earlier one is skipped by all later listings)",
-                          how="store dominated (within the iteration) by `no WAITING trial found yet`")
+    def atom_empty(e):
+        if isinstance(e, ast.Name) and e.id == found:
+            return False  # truthy list = non-empty
+        a = cmp_atom(e)
+        if a and a[0] == f"len({found})" and a[2] == "0":
+            return True if a[1] is ast.Eq else (False if a[1] in (ast.Gt, ast.NotEq) else None)
+        return None
+
+    def classify_value(e):
+        """('first', quantity) | ('end', None) | ('bad', why) | ('unknown', text)"""
+        if isinstance(e, ast.Call) and dotted(e.func) == "len" and e.args and norm(resolve(e.args[0], defs)) == TRIALS:
+            return "end", None
+        base, off = e, 0
+        if isinstance(e, ast.BinOp) and isinstance(e.right, ast.Constant) and isinstance(e.right.value, int) and isinstance(e.op, (ast.Add, ast.Sub)):
+            base, off = e.left, e.right.value if isinstance(e.op, ast.Add) else -e.right.value
+        if isinstance(base, ast.Attribute):
+            owner = base.value
+            is_first = (isinstance(owner, ast.Name) and owner.id == lv) or \
+                       (isinstance(owner, ast.Subscript) and isinstance(owner.value, ast.Name) and owner.value.id in comp_lists
+                        and isinstance(owner.slice, ast.Constant) and owner.slice.value == 0)
+            later = isinstance(owner, ast.Subscript) and isinstance(owner.value, ast.Name) and owner.value.id in comp_lists and not is_first
+            if is_first:
+                if base.attr != "number":
+                    return "bad", f"`{norm(e)}` is not a trial *number* (the cursor indexes the per-study list)"
+                if off > 0:
+                    return "bad", f"`{norm(e)}` lies beyond the first WAITING trial found"
+                return "first", off
+            if later:
+                return "bad", f"`{norm(e)}` is not the first WAITING trial found"
+        return "unknown", norm(e)
+
+    for st in cur_stores:
+        arms = []  # (expr, condition description: None | 'nonempty' | 'empty')
+
+        def split(e, cond):
+            if isinstance(e, ast.IfExp):
+                pol = edges_where(e.test, atom_empty)
+                split(e.body, "empty" if pol.get("t") is True else ("nonempty" if pol.get("t") is False else cond))
+                split(e.orelse, "empty" if pol.get("f") is True else ("nonempty" if pol.get("f") is False else cond))
             else:
-                ctx.check(v.startswith("len(") and v.endswith(".trials)"), "R04.3", f.short, f"cursor-value:{v}",
-                          message=f"after an unsuccessful scan the cursor is set to `{v}` instead of the number of trials",
-                          how="cursor := len(trials) when no WAITING trial exists", where=where(f, st.ast))
-                acc_e = []
-                for t in g.stmt_nodes():
-                    if t.kind == "test":
-                        pe = edges_where(t.expr, atom_empty)
-                        for k, m in t.succ:
-                            if pe.get(k) is True:
-                                acc_e.append((t, k, m))
-                ctx.check(bool(acc_e) and g.dominated_by(st, [], acc_e), "R04.3", f.short, "cursor-to-end-only-if-none-found",
-                          message="the cursor jumps to the end although WAITING trials were found", how="dominated by `not trials`")
+                arms.append((e, cond))
+        split(st.ast.value, None)
+        for e, cond in arms:
+            kind, info = classify_value(e)
+            if kind == "unknown":
+                ctx.require(False, f"R04.3: unrecognised cursor value `{info}`")
+            ctx.check(kind != "bad", "R04.3", f.short, f"cursor-value:{norm(e)[:40]}",
+                      message=f"the WAITING cursor is set to {info}: queued trials below it are never listed again", how="cursor := number of the first WAITING trial / len(trials)",
+                      where=where(f, st.ast))
+            if kind == "first":
+                if st in in_loop:
+                    acc_w = [(t, k, m) for t in g.stmt_nodes() if t.kind == "test" for k, m in t.succ if edges_where(t.expr, atom_waiting).get(k) is True]
+                    acc_e = [(t, k, m) for t in g.stmt_nodes() if t.kind == "test" for k, m in t.succ if edges_where(t.expr, atom_empty).get(k) is True]
+                    r1 = g.reachable(body0, avoid_nodes=[scan], avoid_edges=acc_w)
+                    r2 = g.reachable(body0, avoid_nodes=[scan], avoid_edges=acc_e)
+                    ctx.check(bool(acc_w) and st not in r1, "R04.3", f.short, "cursor-only-at-WAITING-trial",
+                              message="the cursor can be moved to a trial that is not WAITING", how="store dominated (within the iteration) by `trial.state == WAITING`")
+                    ctx.check(bool(acc_e) and st not in r2, "R04.3", f.short, "cursor-only-at-first-found",
+                              message="the cursor can be moved to a later WAITING trial although an earlier one was found (the earlier one is skipped by all later listings)",
+                              how="store dominated (within the iteration) by `no WAITING trial found yet`")
+                else:
+                    ctx.check(cond == "nonempty", "R04.3", f.short, "cursor-first-only-if-found",
+                              message="first-found cursor value used without testing that a WAITING trial was found", how="arm selected when the found-list is non-empty")
+            if kind == "end":
+                if cond is None:
+                    acc_e = [(t, k, m) for t in g.stmt_nodes() if t.kind == "test" for k, m in t.succ if edges_where(t.expr, atom_empty).get(k) is True]
+                    ok_end = bool(acc_e) and g.dominated_by(st, [], acc_e)
+                else:
+                    ok_end = cond == "empty"
+                ctx.check(ok_end, "R04.3", f.short, "cursor-to-end-only-if-none-found",
+                          message="the cursor jumps to the end although WAITING trials were found", how="only when no WAITING trial was found")
     # cursor removed with the study, created with it
     dl = p.cls(INMEM).methods["delete_study"]
     ok = any(isinstance(n, ast.Delete) and any(norm(t) == "self._prev_waiting_trial_number[study_id]" for t in n.targets) for n in own_nodes(dl.node))
